@@ -7,8 +7,8 @@ set -u
 P="$1"; SLOT="$2"; shift 2
 WT=/tmp/wtb$SLOT; VS=/tmp/vb$SLOT
 if [ ! -d "$WT" ]; then git -C /repo worktree add --detach "$WT" HEAD >/dev/null 2>&1 || exit 2; fi
-cd "$WT" && git checkout -q --detach "$(git -C /repo rev-parse HEAD)" && git checkout -- . || exit 2
-git apply "$P" || { echo "patch does not apply"; exit 2; }
+cd "$WT" && git reset -q --hard && git checkout -q --detach "$(git -C /repo rev-parse HEAD)" && git reset -q --hard || exit 2
+git apply "$P" 2>/dev/null || git apply --3way "$P" >/dev/null 2>&1 || { git reset -q --hard; echo "patch does not apply"; exit 2; }
 mkdir -p "$VS"
 rsync -a --delete --exclude .git --exclude replays --exclude evidence /verif/ "$VS"/
 mkdir -p "$VS/replays" "$VS/evidence"
@@ -18,7 +18,7 @@ export GE_REPO="$WT"
 IDS="$*"
 [ -n "$IDS" ] || IDS=$(python3 -c "import json; print(' '.join(c['property_id'] for c in json.load(open('MANIFEST.json'))['checks']))")
 for ID in $IDS; do
-  OUT=$(./check $ID --tier quick 2>&1 | grep -E "^(OK|VIOLATION)|violation\[" | cut -c1-300 | head -4 | tr '\n' '|')
+  RAW=$(./check $ID --tier quick 2>&1); OUT=$( (echo "$RAW" | grep -E "^(OK|VIOLATION)" | cut -c1-200; echo "$RAW" | grep -E "violation\[" | cut -c1-220 | head -3) | tr "\n" "|")
   echo "$(basename $(dirname "$P"))/$(basename "$P") $ID $OUT"
 done
-cd "$WT" && git checkout -- .
+cd "$WT" && git reset -q --hard
